@@ -51,6 +51,17 @@ theorem C19_guards_needed :
       (col (canon.edges.getD i []) 2 == "F") = true → leaks (unguardEdge canon i) = true) :=
   ⟨canon_does_not_leak, every_site_guard_needed, every_edge_guard_needed⟩
 
+/-- **`call:` steps are covered.** The command line of a step or handler that calls a function is assembled by
+    `parseFuncCall`; that function lies on the call path of the builder steps reading `Steps`, `HandlerOn` and
+    `Functions` under the validating / displaying entry points, and has no effect site in the canonical table —
+    which is what `C19_full` says for those three fields. An exec site there (seeded mutant C19-4:
+    `util.SplitCommandWithParse`) would be reached from LoadYAML and LoadWithoutEval through all three fields. -/
+theorem C19_call_steps :
+    (∀ e ∈ nonEvaluatingEntries, ∀ f ∈ ["Steps", "HandlerOn", "Functions"], reach canon e f = []) ∧
+    (∀ e ∈ ["LoadYAML", "LoadWithoutEval"], ∀ f ∈ ["Steps", "HandlerOn", "Functions"],
+      (⟨"parseFuncCall", "util.SplitCommandWithParse", "0"⟩ : Effect) ∈ reach (addSite canon callSite) e f) :=
+  ⟨fun e he f _ => C19_full e he f, call_site_would_leak.1⟩
+
 /-- the option sets of the entry points, as read from loader.go -/
 example : optsOf canon "LoadYAML" = some ⟨true, false⟩ ∧ optsOf canon "LoadMetadata" = some ⟨true, true⟩ ∧
     optsOf canon "LoadWithoutEval" = some ⟨true, false⟩ ∧ optsOf canon "Load" = some ⟨false, false⟩ := by decide +kernel
@@ -60,3 +71,4 @@ end BdModel.P19
 #print axioms BdModel.P19.C19_full
 #print axioms BdModel.P19.C19_load_evaluates
 #print axioms BdModel.P19.C19_guards_needed
+#print axioms BdModel.P19.C19_call_steps
